@@ -238,6 +238,46 @@ func c20LitFields(p *Pkg, fn *ast.FuncDecl, typ string) map[string]ast.Expr {
 	return res
 }
 
+// c20PassesDirs: fn obtains `d, w[, err] := <src>(...)` and every call to one of
+// the callees passes `[]string{d}, []string{w}` as its last two arguments
+func c20PassesDirs(p *Pkg, fn *ast.FuncDecl, src string, callees map[string]bool) bool {
+	d, w := "", ""
+	ast.Inspect(fn.Body, func(n ast.Node) bool {
+		as, ok := n.(*ast.AssignStmt)
+		if !ok || len(as.Rhs) != 1 || len(as.Lhs) < 2 {
+			return true
+		}
+		if c, ok := as.Rhs[0].(*ast.CallExpr); ok && c20CalleeName(c) == src {
+			d, w = c20ExprString(as.Lhs[0]), c20ExprString(as.Lhs[1])
+		}
+		return true
+	})
+	if d == "" || w == "" || d == "_" || w == "_" || d == w {
+		return false
+	}
+	one := func(e ast.Expr) string {
+		cl, ok := e.(*ast.CompositeLit)
+		if !ok || len(cl.Elts) != 1 || exprText(p, cl.Type) != "[]string" {
+			return ""
+		}
+		return c20ExprString(cl.Elts[0])
+	}
+	calls, good := 0, true
+	ast.Inspect(fn.Body, func(n ast.Node) bool {
+		c, ok := n.(*ast.CallExpr)
+		if !ok || !callees[c20CalleeName(c)] {
+			return true
+		}
+		calls++
+		k := len(c.Args)
+		if k < 2 || one(c.Args[k-2]) != d || one(c.Args[k-1]) != w {
+			good = false
+		}
+		return true
+	})
+	return calls > 0 && good
+}
+
 // source text of an expression
 func exprText(p *Pkg, e ast.Expr) string {
 	var b bytes.Buffer
@@ -414,6 +454,35 @@ func init() {
 				return false // the first if statement must be the exemption
 			}
 			return false
+		}),
+		// the log store is opened with (data dir, low latency dir) in this order, both
+		// by the tool (tools.getLogDB) and by NewNodeHost (NodeHost.createLogDB)
+		boolFact("getlogdb_passes_wal_dirs", func() bool {
+			p := loadPkg("tools")
+			return c20PassesDirs(p, p.Func("", "getLogDB"), "GetLogDBDirs", map[string]bool{"Create": true, "NewDefaultLogDB": true})
+		}),
+		boolFact("nodehost_passes_wal_dirs", func() bool {
+			p := loadPkg(".")
+			return c20PassesDirs(p, p.Func("NodeHost", "createLogDB"), "CreateNodeHostDir", map[string]bool{"Create": true})
+		}),
+		// tan: nodeIndex.removeAll (ImportSnapshot, RemoveNodeData) forgets everything
+		// about the replica's entries, the compaction point included
+		boolFact("tan_remove_all_resets_compaction", func() bool {
+			p := loadPkg("internal/tan")
+			fn := p.Func("nodeIndex", "removeAll")
+			reset := map[string]bool{}
+			for _, st := range fn.Body.List {
+				as, ok := st.(*ast.AssignStmt)
+				if !ok || len(as.Lhs) != 1 || len(as.Rhs) != 1 {
+					return false
+				}
+				cl, ok := as.Rhs[0].(*ast.CompositeLit)
+				if !ok || len(cl.Elts) != 0 {
+					return false // anything carried over
+				}
+				reset[c20ExprString(as.Lhs[0])] = true
+			}
+			return reset["n.entries"] && reset["n.currEntries"]
 		}),
 		// v2 snapshot file geometry (internal/rsm/rwv.go)
 		NFact("ss_header_size", func() *big.Int { return loadPkg("internal/settings").Const("SnapshotHeaderSize") }),
